@@ -2,6 +2,7 @@
 Written from the property text (finitary: last value held; closed intervals; non-strict until/since; right-continuous
 step functions), over the same algebra A as refsem.  A signal is a list [[s_0,v_0],...,[s_m,v_m]], s_0 < ... < s_m."""
 INF = float('inf')
+TWIN = None      # vacuity guard, see refsem.TWIN
 
 
 def val(A, sig, tau):
@@ -39,10 +40,12 @@ def window(A, sig, lo, hi, mx):
     for s, e, v in segs(sig):
         cond = []
         if hi is not None:
-            cond.append(A.le(s, hi))
+            cond.append(A.lt(s, hi) if TWIN == 'ctwindow' else A.le(s, hi))     # twin: closed window edge made open
         if lo is not None and e is not None:
             cond.append(A.lt(lo, e))
         c.append((A.And(*cond), v))
+    if TWIN == 'ctminmax':
+        mx = not mx
     return gmax(A, c) if mx else gmin(A, c)
 
 
@@ -104,7 +107,7 @@ def ref_unary(A, op, sig, tau, a=None, b=None):
 
 def ref_binary(A, op, f, g, tau, S, a=None, b=None):
     p, q = val(A, f, tau), val(A, g, tau)
-    if op == 'and': return A.min([p, q])
+    if op == 'and': return (A.max if TWIN == 'ctminmax' else A.min)([p, q])
     if op == 'or': return A.max([p, q])
     if op == 'implies': return A.max([-p, q])
     if op == 'iff': return -abs(p - q)
